@@ -301,11 +301,13 @@ func (m *Muxer) retransmitTables(force bool) (int, error) {
 func (m *Muxer) WriteTables() (int, error) {
 	bytesWritten := 0
 
-	if err := m.generatePAT(); err != nil {
+	// The PMT is generated first: when it can't be (e.g. invalid PCR PID), nothing is written and the PAT
+	// continuity counter and version must not have been consumed
+	if err := m.generatePMT(); err != nil {
 		return bytesWritten, err
 	}
 
-	if err := m.generatePMT(); err != nil {
+	if err := m.generatePAT(); err != nil {
 		return bytesWritten, err
 	}
 
